@@ -339,6 +339,259 @@ theorem T04_1_spec_alignment (d : Diagram) (h : d.Inv)
   simp only [List.getD_eq_getElem?_getD, List.append_assoc]
   rw [List.getElem?_append_left (by omega)]
 
+/-! ## tensor axes never carry a free label -/
+
+/-- a label is the position itself or an end point of a contraction -/
+theorem T05_5_label_pos_or_end (cs : List (Nat × Nat)) (n : Nat) (h : (endsList cs).Nodup) (p : Nat) (hp : p < n) :
+    (relabelG cs (List.range n)).getD p 0 = p ∨ (relabelG cs (List.range n)).getD p 0 ∈ endsList cs := by
+  rw [T05_5_label cs n h p hp]
+  cases hf : cs.find? (fun c => max c.1 c.2 = p) with
+  | none => left; rfl
+  | some c =>
+    right
+    simp only [Option.map_some, Option.getD_some]
+    have hc := List.mem_of_find?_eq_some hf
+    simp only [endsList, List.mem_flatMap]
+    refine ⟨c, hc, ?_⟩
+    rcases Nat.le_total c.1 c.2 with hle | hle
+    · simp [Nat.min_eq_left hle]
+    · simp [Nat.min_eq_right hle]
+
+/-- position of a collection axis of some node -/
+def Diagram.isFreePos (d : Diagram) (p : Nat) : Prop := ∃ x ∈ d.items, ∃ k, k < x.1.nfree ∧ p = x.2.2 + k
+
+/-- **T04.1 (complete).**  For a diagram with the representation invariant whose contraction ends are pairwise distinct
+    (`T05_5_positions_nodup`: every reachable diagram) and are never collection axes (edges pair covariant with contravariant
+    indices, and those come after the collection axes): in the einsum call of `calculate`
+    * the j-th collection axis from the right of every operand carries the j-th free output label from the right,
+    * NO tensor axis of any operand carries a free output label.
+    These are the hypotheses `h3`, `h4` of `T04_2_elementwise`; no assumption on the label list remains. -/
+theorem T04_1_collections_positionwise (d : Diagram) (h : d.Inv)
+    (hnf : ∀ n ∈ d.nodes, n.nfree ≤ n.rank)
+    (hnd : (endsList (globalEnds d.positions d.contractions)).Nodup)
+    (hends : ∀ e ∈ endsList (globalEnds d.positions d.contractions), ¬ d.isFreePos e) :
+    ∀ k (hk : k < d.items.length),
+      (∀ j, j < d.items[k].1.nfree →
+        (d.spec.operands.getD k []).getD (d.items[k].1.nfree - 1 - j) 0 = d.spec.out.getD (d.spec.nFree - 1 - j) 0) ∧
+      (∀ i, d.items[k].1.nfree ≤ i → i < d.items[k].1.rank →
+        (d.spec.operands.getD k []).getD i 0 ∉ d.spec.out.take d.spec.nFree) := by
+  obtain ⟨hpw, hbound⟩ := items_blocks d h
+  have hrl : (relabel d.positions d.contractions d.indexCount).length = d.indexCount := by
+    rw [relabel_eq_relabelG, relabelG_length]; simp
+  have hown : ∀ x ∈ d.items, ∀ k, k < x.1.nfree →
+      (relabel d.positions d.contractions d.indexCount).getD (x.2.2 + k) 0 = x.2.2 + k := by
+    intro x hx k hk
+    rw [relabel_eq_relabelG]
+    have hb := hbound x hx
+    have hxn := hnf x.1 (List.of_mem_zip hx).1
+    exact (T05_5_free_label _ _ hnd (x.2.2 + k) (by omega) (fun he => hends _ he ⟨x, hx, k, hk, rfl⟩)).1
+  obtain ⟨-, hal⟩ := T04_1_spec_alignment d h hnf hown hrl
+  intro k hk
+  obtain ⟨ha, hb⟩ := hal k hk
+  refine ⟨ha, ?_⟩
+  intro i hi1 hi2 hmem
+  -- the label of the tensor axis
+  rw [hb i hi1 hi2, relabel_eq_relabelG] at hmem
+  have hxk : d.items[k] ∈ d.items := List.getElem_mem hk
+  have hbk := hbound _ hxk
+  -- a free output label is the position of a collection axis
+  have hfreepos : d.isFreePos ((relabelG (globalEnds d.positions d.contractions) (List.range d.indexCount)).getD (d.items[k].2.2 + i) 0) := by
+    have hin : (relabelG (globalEnds d.positions d.contractions) (List.range d.indexCount)).getD (d.items[k].2.2 + i) 0
+        ∈ (calcFold d.items ⟨relabel d.positions d.contractions d.indexCount, [], [], [], []⟩).r0 := by
+      have : d.spec.out.take d.spec.nFree
+          = (calcFold d.items ⟨relabel d.positions d.contractions d.indexCount, [], [], [], []⟩).r0 := by
+        show ((calcFold d.items ⟨relabel d.positions d.contractions d.indexCount, [], [], [], []⟩).r0
+            ++ (calcFold d.items ⟨relabel d.positions d.contractions d.indexCount, [], [], [], []⟩).r1
+            ++ (calcFold d.items ⟨relabel d.positions d.contractions d.indexCount, [], [], [], []⟩).r2).take
+              (calcFold d.items ⟨relabel d.positions d.contractions d.indexCount, [], [], [], []⟩).r0.length = _
+        rw [List.append_assoc, List.take_left]
+      rw [← this]; exact hmem
+    rcases T05_5_free_labels_are_positions d.items _ _ hin with h0 | h1
+    · simp at h0
+    · exact h1
+  -- but it is the position of a tensor axis, or a contraction end
+  rcases T05_5_label_pos_or_end _ d.indexCount hnd (d.items[k].2.2 + i) (by omega) with hself | hend
+  · rw [hself] at hfreepos
+    obtain ⟨y, hy, j, hj, heq⟩ := hfreepos
+    obtain ⟨m, hm, rfl⟩ := List.getElem_of_mem hy
+    have hym := hnf d.items[m].1 (List.of_mem_zip (List.getElem_mem hm)).1
+    rcases Nat.lt_trichotomy m k with hlt | heq' | hgt
+    · have := List.pairwise_iff_getElem.mp hpw m k hm hk hlt
+      omega
+    · subst heq'; omega
+    · have := List.pairwise_iff_getElem.mp hpw k m hk hm hgt
+      omega
+  · exact hends _ hend hfreepos
+
+/-! ## every reachable diagram: contraction ends are tensor axes, never collection axes -/
+
+/-- the position of a tensor axis of a node is not the position of a collection axis of any node (blocks are disjoint) -/
+theorem tensor_pos_not_free (d : Diagram) (h : d.Inv) (hnf : ∀ n ∈ d.nodes, n.nfree ≤ n.rank)
+    (m : Nat) (hm : m < d.items.length) (i : Nat) (hi1 : d.items[m].1.nfree ≤ i) (hi2 : i < d.items[m].1.rank) :
+    ¬ d.isFreePos (d.items[m].2.2 + i) := by
+  obtain ⟨hpw, -⟩ := items_blocks d h
+  rintro ⟨y, hy, j, hj, heq⟩
+  obtain ⟨k, hk, rfl⟩ := List.getElem_of_mem hy
+  have hyk := hnf d.items[k].1 (List.of_mem_zip (List.getElem_mem hk)).1
+  rcases Nat.lt_trichotomy k m with hlt | heq' | hgt
+  · have := List.pairwise_iff_getElem.mp hpw k m hk hm hlt
+    omega
+  · subst heq'; omega
+  · have := List.pairwise_iff_getElem.mp hpw m k hm hk hgt
+    omega
+
+/-- the indices of every contraction are a covariant index of its source node and a contravariant index of its target node -/
+structure Diagram.Inv3 (d : Diagram) : Prop where
+  base : d.Inv
+  cs : ∀ c ∈ d.contractions, c.1 < d.nodes.length ∧ c.2.1 < d.nodes.length ∧
+        c.2.2.1 ∈ (d.nodes.getD c.1 ⟨0, [], [], []⟩).cov ∧ c.2.2.2 ∈ (d.nodes.getD c.2.1 ⟨0, [], [], []⟩).con
+
+theorem inv3_empty : Diagram.empty.Inv3 := ⟨inv_empty, by simp [Diagram.empty]⟩
+
+private theorem getD_append_lt3 {α : Type} (l l' : List α) (d : α) (k : Nat) (h : k < l.length) :
+    (l ++ l').getD k d = l.getD k d := by
+  simp [List.getD_eq_getElem?_getD, List.getElem?_append_left h]
+
+theorem inv3_addNode (d : Diagram) (n : Node) (h : d.Inv3) : (d.addNode n).Inv3 := by
+  refine ⟨inv_addNode d n h.base, ?_⟩
+  intro c hc
+  have hc' : c ∈ d.contractions := by simpa [Diagram.addNode] using hc
+  obtain ⟨h1, h2, h3, h4⟩ := h.cs c hc'
+  simp only [Diagram.addNode, List.length_append, List.length_singleton]
+  refine ⟨by omega, by omega, ?_, ?_⟩
+  · rw [getD_append_lt3 _ _ _ _ h1]; exact h3
+  · rw [getD_append_lt3 _ _ _ _ h2]; exact h4
+
+theorem inv3_locate (d : Diagram) (s t : Node) (h : d.Inv3) : (d.locate s t).1.Inv3 := by
+  unfold Diagram.locate
+  generalize findLoop s.id t.id d.nodes 0 none none = st
+  rcases st with ⟨a, b⟩
+  cases a <;> cases b <;> by_cases hl : t.id = s.id <;> simp [hl] <;>
+    first | exact h | (apply inv3_addNode; first | exact h | (apply inv3_addNode; exact h))
+
+theorem inv3_addEdge' (d : Diagram) (s t : Node) (h : d.Inv3) : (d.addEdge' s t).1.Inv3 := by
+  have hb := inv_addEdge' d s t h.base
+  have hl := inv3_locate d s t h
+  refine ⟨hb, ?_⟩
+  unfold Diagram.addEdge' at hb ⊢
+  generalize d.locate s t = loc at hl hb ⊢
+  obtain ⟨d2, si, ti⟩ := loc
+  simp only at hl hb ⊢
+  cases h1 : d2.freeCov si with
+  | nil => simpa [h1] using hl.cs
+  | cons i rs =>
+    cases h2 : d2.freeCon ti with
+    | nil => simpa [h1, h2] using hl.cs
+    | cons j rt =>
+      by_cases hd : s.dimAt i = t.dimAt j
+      · simp only [h1, h2, hd, ne_eq, not_true_eq_false, if_false]
+        intro c hc
+        rcases List.mem_append.mp hc with hc | hc
+        · exact hl.cs c hc
+        · simp only [List.mem_singleton] at hc
+          subst hc
+          -- the new contraction: si, ti are nodes of the diagram, i / j the heads of their unused lists
+          have hsi : si < d2.nodes.length := by
+            by_contra hge
+            have : d2.freeCov si = [] := by
+              simp only [Diagram.freeCov, List.getD_eq_getElem?_getD]
+              rw [List.getElem?_eq_none (by rw [hl.base.lenU]; omega)]; rfl
+            rw [this] at h1; cases h1
+          have hti : ti < d2.nodes.length := by
+            by_contra hge
+            have : d2.freeCon ti = [] := by
+              simp only [Diagram.freeCon, List.getD_eq_getElem?_getD]
+              rw [List.getElem?_eq_none (by rw [hl.base.lenU]; omega)]; rfl
+            rw [this] at h2; cases h2
+          refine ⟨hsi, hti, ?_, ?_⟩
+          · have := hl.base.sufCov si hsi
+            rw [h1] at this
+            exact this.subset List.mem_cons_self
+          · have := hl.base.sufCon ti hti
+            rw [h2] at this
+            exact this.subset List.mem_cons_self
+      · simpa [h1, h2, hd] using hl.cs
+
+theorem T05_2_reachable_inv3 (ops : List DOp) : (ops.foldl Diagram.step Diagram.empty).Inv3 := by
+  have : ∀ (d : Diagram), d.Inv3 → (ops.foldl Diagram.step d).Inv3 := by
+    induction ops with
+    | nil => intro d h; simpa
+    | cons op ops ih =>
+      intro d h
+      simp only [List.foldl_cons]
+      apply ih
+      cases op with
+      | node n => exact inv3_addNode d n h
+      | edge s t => exact inv3_addEdge' d s t h
+  exact this _ inv3_empty
+
+/-- under `Inv3`, when the tensor indices of every node come after its collection axes (what the `Tensor` constructor
+    guarantees), no contraction end is the position of a collection axis -/
+theorem ends_not_free (d : Diagram) (h : d.Inv3)
+    (hwf : ∀ n ∈ d.nodes, ∀ i ∈ n.cov ++ n.con, n.nfree ≤ i ∧ i < n.rank)
+    (hnf : ∀ n ∈ d.nodes, n.nfree ≤ n.rank) :
+    ∀ e ∈ endsList (globalEnds d.positions d.contractions), ¬ d.isFreePos e := by
+  intro e he
+  simp only [endsList, globalEnds, List.mem_flatMap, List.mem_map] at he
+  obtain ⟨g, ⟨c, hc, rfl⟩, he⟩ := he
+  obtain ⟨h1, h2, h3, h4⟩ := h.cs c hc
+  have hlen := items_length d h.base
+  have key : ∀ m (hm : m < d.nodes.length) (i : Nat), i ∈ (d.nodes.getD m ⟨0, [], [], []⟩).cov ++ (d.nodes.getD m ⟨0, [], [], []⟩).con →
+      ¬ d.isFreePos (d.positions.getD m 0 + i) := by
+    intro m hm i hi
+    have hmi : m < d.items.length := by rw [hlen]; exact hm
+    obtain ⟨a1, a2⟩ := items_get d h.base m hmi
+    have hnode : d.nodes.getD m ⟨0, [], [], []⟩ = d.items[m].1 := by
+      rw [a1, List.getD_eq_getElem?_getD, List.getElem?_eq_getElem hm]; rfl
+    have hpos : d.positions.getD m 0 = d.items[m].2.2 := by
+      rw [a2]; exact h.base.pos m hm
+    rw [hnode] at hi
+    have hmem : d.items[m].1 ∈ d.nodes := by rw [a1]; exact List.getElem_mem hm
+    obtain ⟨b1, b2⟩ := hwf _ hmem i hi
+    rw [hpos]
+    exact tensor_pos_not_free d h.base hnf m hmi i b1 b2
+  simp only [List.mem_cons, List.not_mem_nil, or_false] at he
+  rcases he with rfl | rfl
+  · exact key c.1 h1 _ (List.mem_append_left _ h3)
+  · exact key c.2.1 h2 _ (List.mem_append_right _ h4)
+
+/-- **T04.1 for every reachable diagram.**  Any sequence of `add_node` / `add_edge` calls (refused edges included) on tensors
+    whose index lists are duplicate-free and lie behind the collection axes: in the einsum call of `calculate` the collection
+    axes of all operands are right-aligned with the free output labels, and no tensor axis carries a free label. -/
+theorem T04_1_reachable (ops : List DOp)
+    (hnodes : ∀ o ∈ ops, match o with
+      | .node n => n.WF
+      | .edge s t => s.WF ∧ t.WF) :
+    let d := ops.foldl Diagram.step Diagram.empty
+    (∀ n ∈ d.nodes, ∀ i ∈ n.cov ++ n.con, n.nfree ≤ i ∧ i < n.rank) →
+    (∀ n ∈ d.nodes, n.nfree ≤ n.rank) →
+    ∀ k (hk : k < d.items.length),
+      (∀ j, j < d.items[k].1.nfree →
+        (d.spec.operands.getD k []).getD (d.items[k].1.nfree - 1 - j) 0 = d.spec.out.getD (d.spec.nFree - 1 - j) 0) ∧
+      (∀ i, d.items[k].1.nfree ≤ i → i < d.items[k].1.rank →
+        (d.spec.operands.getD k []).getD i 0 ∉ d.spec.out.take d.spec.nFree) := by
+  intro d hwf hnf
+  have h3 : d.Inv3 := T05_2_reachable_inv3 ops
+  have h2 : d.Inv2 := by
+    have : ∀ (ops : List DOp) (d0 : Diagram), (∀ o ∈ ops, match o with
+        | .node n => n.WF
+        | .edge s t => s.WF ∧ t.WF) → d0.Inv2 → (ops.foldl Diagram.step d0).Inv2 := by
+      intro ops
+      induction ops with
+      | nil => intro d0 _ h; simpa
+      | cons op ops ih =>
+        intro d0 hw h
+        simp only [List.foldl_cons]
+        apply ih _ (fun o ho => hw o (List.mem_cons_of_mem _ ho))
+        have hop := hw op List.mem_cons_self
+        cases op with
+        | node n => exact inv2_addNode d0 n hop h
+        | edge s t => exact inv2_addEdge' d0 s t hop.1 hop.2 h
+    exact this ops _ hnodes inv2_empty
+  have hnd : (endsList (globalEnds d.positions d.contractions)).Nodup :=
+    (List.nodup_append.mp h2.nodup).1
+  exact T04_1_collections_positionwise d h3.base hnf hnd (ends_not_free d h3 hwf hnf)
+
 /-- non-vacuity, computed on the traced diagram `join(PointCollection (2 axes), ε, PointCollection (1 axis))`:
     labels `[0,1,2] [2,4,5] [1,4]`, output `[0,1,5]`: the single collection axis of the third operand carries the LAST free label -/
 example :
@@ -347,6 +600,16 @@ example :
         unused := [([], []), ([], [2]), ([], [])], positions := [0, 3, 6],
         contractions := [(0, 1, 2, 0), (2, 1, 1, 1)], indexCount := 8 }
     d.spec.operands = [[0, 1, 2], [2, 4, 5], [1, 4]] ∧ d.spec.out = [0, 1, 5] ∧ d.spec.nFree = 2 := by
+  decide
+
+/-- non-vacuity of `T04_1_reachable`: `join(PointCollection (5), PointCollection (2, 5))` as the library builds it — two edges into
+    ε; the hypotheses hold and the einsum call is `[0,1] [1,3,4] [5,0,3] → [5,0,4]` (the call recorded from the running library) -/
+example :
+    let ops : List DOp := [DOp.edge ⟨1, [5, 3], [1], []⟩ ⟨9, [3, 3, 3], [], [0, 1, 2]⟩,
+                           DOp.edge ⟨2, [2, 5, 3], [2], []⟩ ⟨9, [3, 3, 3], [], [0, 1, 2]⟩]
+    let d := ops.foldl Diagram.step Diagram.empty
+    (∀ n ∈ d.nodes, ∀ i ∈ n.cov ++ n.con, n.nfree ≤ i ∧ i < n.rank) ∧ (∀ n ∈ d.nodes, n.nfree ≤ n.rank) ∧
+    d.spec.operands = [[0, 1], [1, 3, 4], [5, 0, 3]] ∧ d.spec.out = [5, 0, 4] ∧ d.spec.nFree = 2 := by
   decide
 
 end Geo
